@@ -279,6 +279,10 @@ package socket
 //@ fieldfunc Transport.OnClose ConnCallback
 
 //@ rule goroutine_roots prop=C11
+// a dead connection takes its goroutines and pending request tasks with it: everything Serve starts
+// runs under the context Serve cancels on exit, and receive hands that context on to the tasks
+//@ rule go_ctx (*Handler).Serve from=withcancel prop=C11,C10
+//@ rule go_ctx (*Handler).receive from=param prop=C11,C10
 
 // Thin contracts for the goroutine bodies and the cleanup path: no panic escapes; they may
 // change any ghost state (callers need nothing else from them).
